@@ -250,3 +250,442 @@ Proof.
         destruct (_ && _ && _ && _); [|reflexivity]. f_equal. apply mval_ext. intros y Hy.
         symmetry. apply vwf_cons_ne. pose proof (lbound_in x _ y Hb Hy). lia.
 Qed.
+
+(* ------------------------------------------------------------------------------------------------ dimension bookkeeping *)
+Lemma mink_nil nb k : mink nb k [] = Z.of_nat k.
+Proof. destruct k; reflexivity. Qed.
+Lemma mink_cons nb k x w r :
+  mink nb k ((x, w) :: r) =
+  Z.min (match k with
+         | O => 0
+         | S k' => match inter false r (nb x) w with [] => Z.of_nat k | i => mink nb k' i end
+         end) (mink nb k r).
+Proof. destruct k; reflexivity. Qed.
+Lemma expand_nonnil nb k l : l <> [] -> expand nb k l <> [].
+Proof. destruct l as [|[x w] r]; [congruence|]. rewrite expand_cons. discriminate. Qed.
+Lemma height_nonnil l : l <> [] -> 0 <= height_t (Node l).
+Proof.
+  destruct l as [|[[x w] c] r]; [congruence|]. intros _. rewrite height_node_cons.
+  pose proof (height_lb c). lia.
+Qed.
+(* the smallest counter reached = k - (height of the expanded subtree) *)
+Lemma mink_height nb : forall k l,
+  mink nb k l = Z.min (Z.of_nat k) (Z.of_nat k - height_t (Node (expand nb k l))).
+Proof.
+  induction k as [|k IHk]; induction l as [|[x w] r IHl].
+  - rewrite mink_nil, expand_nil. cbn. lia.
+  - rewrite mink_cons, expand_cons, height_node_cons, IHl.
+    pose proof (height_lb (Node (expand nb 0 r))). cbn [height_t fold_right]. lia.
+  - rewrite mink_nil, expand_nil. cbn [height_t fold_right]. lia.
+  - rewrite mink_cons, expand_cons, height_node_cons, IHl.
+    pose proof (height_lb (Node (expand nb (S k) r))) as Hr.
+    destruct (inter false r (nb x) w) as [|p i] eqn:Ei.
+    + rewrite expand_nil. cbn [height_t fold_right]. lia.
+    + rewrite IHk. assert (0 <= height_t (Node (expand nb k (p :: i)))) as Hi
+        by (apply height_nonnil, expand_nonnil; discriminate).
+      lia.
+Qed.
+
+(* ------------------------------------------------------------------------------------------------ the whole tree *)
+Definition groot (root : sibs) : Prop :=
+  wf root /\ Forall (fun e => let '(x, w, c) := e in lsorted (labs (kids c)) /\ lbnd x (labs (kids c))) root.
+Definition exp_entry (nb : Z -> lv) (k : nat) (e : Z * V * trie) : Z * V * trie :=
+  let '(x, w, Node c) := e in (x, w, Node (match c with [] => [] | _ :: _ => expand nb k (labs c) end)).
+Lemma exp_entry_eq nb k x w c : exp_entry nb k (x, w, Node c) = (x, w, Node (expand nb k (labs c))).
+Proof. destruct c; [rewrite expand_nil|]; reflexivity. Qed.
+
+Lemma get_in x : forall l w c, get x l = Some (w, c) -> In (x, w, c) l.
+Proof.
+  induction l as [|[[y w'] c'] r IH]; intros w c H; [discriminate|]. cbn [get] in H.
+  destruct (Z.compare_spec x y); [subst; inversion H; left; reflexivity | discriminate | right; auto].
+Qed.
+Lemma nbrs_get root x w c : get x root = Some (w, Node c) -> nbrs root x = labs c.
+Proof. intro H. unfold nbrs. rewrite H. reflexivity. Qed.
+Lemma groot_nb root : groot root -> forall x, lsorted (nbrs root x) /\ lbnd x (nbrs root x).
+Proof.
+  intros [_ F] x. unfold nbrs. destruct (get x root) as [[w [c]]|] eqn:E; [|split; [exact I | constructor]].
+  apply get_in in E. rewrite Forall_forall in F. apply (F _ E).
+Qed.
+Lemma get_map_entry nb k x : forall root,
+  get x (map (exp_entry nb k) root) =
+  match get x root with Some (w, Node c) => Some (w, Node (expand nb k (labs c))) | None => None end.
+Proof.
+  induction root as [|[[y w] [c]] r IH]; [reflexivity|]. cbn [map]. rewrite exp_entry_eq. cbn [get].
+  destruct (x ?= y); auto.
+Qed.
+Lemma lb_sibs_map_entry nb k z : forall root, lb_sibs z root -> lb_sibs z (map (exp_entry nb k) root).
+Proof.
+  induction root as [|[[y w] [c]] r IH]; intro H; [exact I|]. cbn [map]. rewrite exp_entry_eq.
+  cbn [lb_sibs label fst] in *. destruct H; split; auto.
+Qed.
+Lemma wf_map_entry nb k : (forall x, lsorted (nb x)) -> forall root,
+  wf root -> Forall (fun e => let '(x, w, c) := e in lsorted (labs (kids c)) /\ lbnd x (labs (kids c))) root ->
+  wf (map (exp_entry nb k) root).
+Proof.
+  intros Hnb. induction root as [|[[y w] [c]] r IH]; intros W F; [apply wf_nil|].
+  cbn [map]. rewrite exp_entry_eq. apply wf_cons in W as [W1 [W2 W3]]. inversion F as [|? ? F1 F2]; subst.
+  apply wf_cons. split; [apply lb_sibs_map_entry; exact W1 | split; [| apply IH; auto]].
+  rewrite wf_t_node. apply expand_wf; auto. cbn [kids] in F1. tauto.
+Qed.
+
+(* what the expanded tree holds, read off the tree of the graph *)
+Definition rspec (root : sibs) (d : Z) (s : simplex) : option V :=
+  match s with
+  | [] => None
+  | [x] => option_map fst (get x root)
+  | x :: s' => match get x root with
+               | None => None
+               | Some _ => fspec (nbrs root) (Z.to_nat (d - 1)) (nbrs root x) s'
+               end
+  end.
+Lemma expansion_tree root dm d : 2 <= d -> root <> [] ->
+  tree (expansion (mkS root dm) d) = map (exp_entry (nbrs root) (Z.to_nat (d - 1))) root.
+Proof.
+  intros Hd Hn. unfold expansion. cbn [tree]. destruct (Z.leb_spec d 1); [lia|].
+  destruct root; [congruence|]. cbn [is_nil tree]. apply map_ext. intros [[x w] [c]]. reflexivity.
+Qed.
+Theorem expansion_tree_spec root dm d : groot root -> 2 <= d ->
+  wf (tree (expansion (mkS root dm) d)) /\
+  forall s, find_val s (tree (expansion (mkS root dm) d)) = rspec root d s.
+Proof.
+  intros G Hd. pose proof (groot_nb root G) as Hnb. destruct G as [W F].
+  destruct root as [|e0 r0] eqn:Er.
+  { unfold expansion. cbn [tree is_nil]. destruct (d <=? 1); split; try apply wf_nil;
+      intros [|x [|y t]]; reflexivity. }
+  rewrite <- Er in *. assert (root <> []) as Hn by (rewrite Er; discriminate).
+  rewrite expansion_tree by auto. split.
+  - apply wf_map_entry; auto. intro x. apply Hnb.
+  - intros [|x [|y t]]; [reflexivity | |].
+    + rewrite find_val_one, get_map_entry. cbn [rspec]. destruct (get x root) as [[w [c]]|]; reflexivity.
+    + rewrite find_val_deep, get_map_entry. cbn [rspec].
+      destruct (get x root) as [[w [c]]|] eqn:E; [|reflexivity].
+      rewrite (nbrs_get root x w c E). apply expand_spec.
+      * intro z. apply Hnb.
+      * rewrite <- (nbrs_get root x w c E). apply Hnb.
+Qed.
+
+(* dimension_ after expansion = height of the tree (the largest dimension of a simplex) *)
+Lemma expansion_dim_fold nb k d : d = Z.of_nat k + 1 -> forall root,
+  fold_right (fun e m => let '(x, w, Node c) := e in
+                         match c with [] => m | _ :: _ => Z.min (mink nb k (labs c)) m end) d root =
+  Z.min d (d - height_t (Node (map (exp_entry nb k) root))).
+Proof.
+  intros Hk. induction root as [|[[x w] [c]] r IH]; [cbn; lia|].
+  cbn [fold_right map]. rewrite exp_entry_eq, height_node_cons, IH.
+  pose proof (height_lb (Node (map (exp_entry nb k) r))) as Hr.
+  destruct c as [|e c'].
+  - cbn [labs map]. rewrite expand_nil. cbn [height_t fold_right]. lia.
+  - rewrite mink_height.
+    assert (0 <= height_t (Node (expand nb k (labs (e :: c'))))) as Hc
+      by (apply height_nonnil, expand_nonnil; discriminate).
+    lia.
+Qed.
+Theorem expansion_dimension root dm d : 2 <= d -> root <> [] ->
+  dimn (expansion (mkS root dm) d) = height_t (Node (tree (expansion (mkS root dm) d))).
+Proof.
+  intros Hd Hn. rewrite expansion_tree by auto. unfold expansion. cbn [tree dimn].
+  destruct (Z.leb_spec d 1); [lia|]. destruct root as [|e r] eqn:Er; [congruence|]. cbn [is_nil dimn]. rewrite <- Er.
+  rewrite (expansion_dim_fold (nbrs root) (Z.to_nat (d - 1)) d) by lia.
+  assert (0 <= height_t (Node (map (exp_entry (nbrs root) (Z.to_nat (d - 1))) root))) as H0.
+  { apply height_nonnil. rewrite Er. discriminate. }
+  lia.
+Qed.
+
+(* ------------------------------------------------------------------------------------------------ insert_graph *)
+Lemma elookup_app x y u v w : forall E,
+  elookup x y (E ++ [(u, v, w)]) =
+  match elookup x y E with
+  | Some o => Some o
+  | None => if ((u =? x) && (v =? y)) || ((u =? y) && (v =? x)) then Some w else None
+  end.
+Proof.
+  induction E as [|[[a b] o] E IH]; [reflexivity|]. cbn [app elookup].
+  destruct (((a =? x) && (b =? y)) || ((a =? y) && (b =? x))); [reflexivity | exact IH].
+Qed.
+Lemma ins_vertices_get x : forall l acc,
+  get x (fold_left ins_vertex l acc) =
+  match get x acc with Some e => Some e | None => option_map (fun w => (w, leaf)) (vlookup x l) end.
+Proof.
+  induction l as [|[y w] r IH]; intro acc; cbn [fold_left vlookup].
+  - destruct (get x acc); reflexivity.
+  - rewrite IH. unfold ins_vertex; cbn [fst snd]. destruct (get y acc) eqn:Ey.
+    + destruct (get x acc) eqn:Ex; [reflexivity|]. destruct (Z.eqb_spec x y); [subst; congruence | reflexivity].
+    + destruct (Z.eqb_spec x y).
+      * subst. rewrite get_put_same, Ey. reflexivity.
+      * rewrite get_put_other by auto. reflexivity.
+Qed.
+Lemma ins_vertices_wf : forall l acc, wf acc -> wf (fold_left ins_vertex l acc).
+Proof.
+  induction l as [|[y w] r IH]; intros acc W; [exact W|]. cbn [fold_left]. apply IH.
+  unfold ins_vertex; cbn [fst snd]. destruct (get y acc); [exact W|]. apply wf_put; [exact W | exact I].
+Qed.
+
+Definition Jinv (G : graph) (E : list (Z * Z * V)) (root : sibs) : Prop :=
+  wf root /\ (forall x, option_map fst (get x root) = vval G x) /\
+  (forall a wa c, get a root = Some (wa, c) ->
+     lb_sibs a (kids c) /\ forall b, option_map fst (get b (kids c)) = if a <? b then elookup a b E else None).
+
+Lemma Jinv_step G E root u v w : Jinv G E root -> u <> v -> vval G u <> None -> vval G v <> None ->
+  exists root', ins_edge (Some root) (u, v, w) = Some root' /\ Jinv G (E ++ [(u, v, w)]) root'.
+Proof.
+  intros (W & J2 & J3) Huv Hu Hv. unfold ins_edge. destruct (Z.eqb_spec u v); [contradiction|].
+  set (a := Z.min u v). set (b := Z.max u v).
+  assert (a < b) as Hab by (unfold a, b; lia).
+  assert (vval G a <> None) as Ha by (unfold a; destruct (Z.min_spec u v) as [[_ ->]|[_ ->]]; auto).
+  destruct (get a root) as [[wa [c]]|] eqn:Ea; [|specialize (J2 a); rewrite Ea in J2; cbn in J2; congruence].
+  destruct (J3 a wa (Node c) Ea) as [Lc Vc]. cbn [kids] in Lc, Vc.
+  pose proof (wf_get a root wa (Node c) W Ea) as Wc. rewrite wf_t_node in Wc.
+  set (c' := match get b c with Some _ => c | None => put b w leaf c end).
+  assert (wf c') as Wc' by (unfold c'; destruct (get b c); [exact Wc | apply wf_put; [exact Wc | exact I]]).
+  assert (lb_sibs a c') as Lc' by (unfold c'; destruct (get b c); [exact Lc | apply lb_sibs_put; auto]).
+  eexists. split; [reflexivity|]. split; [|split].
+  - apply wf_put; [exact W | rewrite wf_t_node; exact Wc'].
+  - intro x. destruct (Z.eq_dec x a) as [->|Hx].
+    + rewrite get_put_same. cbn. rewrite <- J2, Ea. reflexivity.
+    + rewrite get_put_other by auto. apply J2.
+  - intros a' wa' c'' Hg. destruct (Z.eq_dec a' a) as [->|Hx].
+    + rewrite get_put_same in Hg. inversion Hg; subst wa' c''. cbn [kids]. split; [exact Lc'|].
+      intro b'. rewrite elookup_app. specialize (Vc b') as Vb'. pose proof (Vc b) as Vb.
+      assert (a <? b = true) as Hltb by lia. rewrite Hltb in Vb.
+      unfold c'. destruct (get b c) as [[wb cb]|] eqn:Eb.
+      * rewrite Vb'. destruct (a <? b') eqn:Hl; [|reflexivity].
+        destruct (elookup a b' E) eqn:Ee; [reflexivity|].
+        destruct (Z.eqb_spec u a), (Z.eqb_spec v b'), (Z.eqb_spec u b'), (Z.eqb_spec v a); cbn [andb orb]; try reflexivity;
+          exfalso; assert (b' = b) by (unfold a, b in *; lia); subst b'; cbn in Vb; congruence.
+      * destruct (Z.eq_dec b' b) as [->|Hb'].
+        -- rewrite get_put_same. cbn. rewrite Hltb. cbn in Vb. rewrite <- Vb.
+           destruct (Z.eqb_spec u a), (Z.eqb_spec v b), (Z.eqb_spec u b), (Z.eqb_spec v a); cbn [andb orb]; try reflexivity;
+             exfalso; unfold a, b in *; lia.
+        -- rewrite get_put_other by auto. rewrite Vb'. destruct (a <? b') eqn:Hl; [|reflexivity].
+           destruct (elookup a b' E) eqn:Ee; [reflexivity|].
+           destruct (Z.eqb_spec u a), (Z.eqb_spec v b'), (Z.eqb_spec u b'), (Z.eqb_spec v a); cbn [andb orb]; try reflexivity;
+             exfalso; apply Hb'; unfold a, b in *; lia.
+    + rewrite get_put_other in Hg by auto. destruct (J3 a' wa' c'' Hg) as [L' V']. split; [exact L'|].
+      intro b'. rewrite V', elookup_app. destruct (a' <? b') eqn:Hl; [|reflexivity].
+      destruct (elookup a' b' E); [reflexivity|].
+      destruct (Z.eqb_spec u a'), (Z.eqb_spec v b'), (Z.eqb_spec u b'), (Z.eqb_spec v a'); cbn [andb orb]; try reflexivity;
+        exfalso; apply Hx; unfold a, b in *; lia.
+Qed.
+Definition edges_ok (G : graph) (es : list (Z * Z * V)) : Prop :=
+  Forall (fun e => let '(a, b, _) := e in a <> b /\ vval G a <> None /\ vval G b <> None) es.
+Lemma Jinv_fold G : forall es E root, Jinv G E root -> edges_ok G es ->
+  exists root', fold_left ins_edge es (Some root) = Some root' /\ Jinv G (E ++ es) root'.
+Proof.
+  induction es as [|[[u v] w] es IH]; intros E root J F.
+  - exists root. rewrite app_nil_r. auto.
+  - inversion F as [|? ? Hh F']; subst. cbn beta iota in Hh. destruct Hh as (H1 & H2 & H3).
+    destruct (Jinv_step G E root u v w J H1 H2 H3) as (r1 & E1 & J1).
+    destruct (IH _ _ J1 F') as (r2 & E2 & J2). exists r2. cbn [fold_left]. rewrite E1, E2.
+    split; [reflexivity|]. rewrite <- app_assoc in J2. exact J2.
+Qed.
+Lemma graph_ok_edges G : graph_okb G = true -> edges_ok G (gedges G).
+Proof.
+  unfold graph_okb. intro H. apply andb_prop in H as [_ H]. rewrite forallb_forall in H.
+  apply Forall_forall. intros [[a b] w] Hin. specialize (H _ Hin). cbn in H.
+  apply andb_prop in H as [H H3]. apply andb_prop in H as [H1 H2].
+  repeat split; [lia | destruct (vval G a); [discriminate | discriminate H2] | destruct (vval G b); [discriminate | discriminate H3]].
+Qed.
+Theorem ins_graph_inv G st : graph_okb G = true -> ins_graph G = Some st -> Jinv G (gedges G) (tree st).
+Proof.
+  intros Hok H. pose proof (graph_ok_edges G Hok) as Fe. unfold ins_graph in H.
+  destruct (gverts G) as [|p vs] eqn:Ev.
+  - inversion H; subst st. cbn [tree empty_state].
+    assert (gedges G = []) as Ee.
+    { destruct (gedges G) as [|[[a b] w] es]; [reflexivity|]. inversion Fe as [|? ? Hh _]; subst.
+      cbn beta iota in Hh. destruct Hh as (_ & Ha & _). unfold vval in Ha. rewrite Ev in Ha. cbn in Ha. congruence. }
+    rewrite Ee. split; [apply wf_nil | split]; [| intros a wa c Hg; discriminate].
+    intro x. unfold vval. rewrite Ev. reflexivity.
+  - rewrite <- Ev in H.
+    assert (Jinv G [] (fold_left ins_vertex (gverts G) [])) as J0.
+    { split; [apply ins_vertices_wf, wf_nil | split].
+      - intro x. rewrite ins_vertices_get. cbn [get]. unfold vval. destruct (vlookup x (gverts G)); reflexivity.
+      - intros a wa c Hg. rewrite ins_vertices_get in Hg. cbn [get] in Hg.
+        destruct (vlookup a (gverts G)); [|discriminate]. inversion Hg; subst. cbn [kids leaf]. split; [exact I|].
+        intro b. cbn. destruct (a <? b); reflexivity. }
+    destruct (Jinv_fold G (gedges G) [] _ J0 Fe) as (r & Er & Jr). rewrite Er in H. inversion H; subst st. exact Jr.
+Qed.
+Lemma ins_graph_total G : graph_okb G = true -> exists st, ins_graph G = Some st.
+Proof.
+  intros Hok. pose proof (graph_ok_edges G Hok) as Fe. unfold ins_graph.
+  destruct (gverts G) as [|p vs] eqn:Ev; [eauto|]. rewrite <- Ev.
+  assert (Jinv G [] (fold_left ins_vertex (gverts G) [])) as J0.
+  { split; [apply ins_vertices_wf, wf_nil | split].
+    - intro x. rewrite ins_vertices_get. cbn [get]. unfold vval. destruct (vlookup x (gverts G)); reflexivity.
+    - intros a wa c Hg. rewrite ins_vertices_get in Hg. cbn [get] in Hg.
+      destruct (vlookup a (gverts G)); [|discriminate]. inversion Hg; subst. cbn [kids leaf]. split; [exact I|].
+      intro b. cbn. destruct (a <? b); reflexivity. }
+  destruct (Jinv_fold G (gedges G) [] _ J0 Fe) as (r & Er & Jr). rewrite Er. eauto.
+Qed.
+
+(* ------------------------------------------------------------------------------------------------ from the tree of the graph to the graph *)
+Lemma vlookup_labs b : forall c, wf c -> vlookup b (labs c) = option_map fst (get b c).
+Proof.
+  induction c as [|[[y w] t] r IH]; intro W; [reflexivity|]. apply wf_cons in W as (L & _ & Wr).
+  cbn [labs map label fst snd vlookup get]. fold (labs r).
+  destruct (Z.compare_spec b y) as [E|E|E].
+  - subst. rewrite Z.eqb_refl. reflexivity.
+  - destruct (Z.eqb_spec b y); [lia|]. rewrite IH by exact Wr. rewrite (lb_sibs_get_lt y b r L) by lia. reflexivity.
+  - destruct (Z.eqb_spec b y); [lia|]. apply IH; exact Wr.
+Qed.
+Lemma lb_sibs_lbnd x : forall c, lb_sibs x c -> lbnd x (labs c).
+Proof.
+  induction c as [|[[y w] t] r IH]; intro H; [constructor|]. cbn [lb_sibs label fst] in H. destruct H.
+  constructor; [exact H | apply IH; assumption].
+Qed.
+Lemma wf_lsorted : forall c, wf c -> lsorted (labs c).
+Proof.
+  induction c as [|[[y w] t] r IH]; intro W; [exact I|]. apply wf_cons in W as (L & _ & Wr).
+  cbn [labs map lsorted fst label]. split; [apply lb_sibs_lbnd; exact L | apply IH; exact Wr].
+Qed.
+Lemma lb_sibs_in y : forall r x w c, lb_sibs y r -> In (x, w, c) r -> y < x.
+Proof.
+  induction r as [|e r IH]; intros x w c L Hin; [destruct Hin|]. cbn [lb_sibs] in L. destruct L as [L1 L2].
+  destruct Hin as [->|Hin]; [exact L1 | eapply IH; eauto].
+Qed.
+Lemma in_get : forall root x w c, wf root -> In (x, w, c) root -> get x root = Some (w, c).
+Proof.
+  induction root as [|[[y w'] c'] r IH]; intros x w c W Hin; [destruct Hin|]. apply wf_cons in W as (L & _ & Wr).
+  destruct Hin as [E|Hin].
+  - inversion E; subst. cbn [get]. rewrite Z.compare_refl. reflexivity.
+  - pose proof (lb_sibs_in y r x w c L Hin). cbn [get]. destruct (Z.compare_spec x y); try lia. apply IH; auto.
+Qed.
+Lemma Jinv_groot G E root : Jinv G E root -> groot root.
+Proof.
+  intros (W & J2 & J3). split; [exact W|]. apply Forall_forall. intros [[x w] c] Hin.
+  pose proof (in_get root x w c W Hin) as Hg. destruct (J3 x w c Hg) as [L _].
+  pose proof (wf_get x root w c W Hg) as Wc. destruct c as [k]. cbn [kids] in *. rewrite wf_t_node in Wc.
+  split; [apply wf_lsorted; exact Wc | apply lb_sibs_lbnd; exact L].
+Qed.
+Lemma Jinv_nbrs G E root : Jinv G E root -> (forall x y w, elookup x y E = Some w -> vval G x <> None) ->
+  forall x y, vlookup y (nbrs root x) = if x <? y then elookup x y E else None.
+Proof.
+  intros (W & J2 & J3) HV x y. unfold nbrs. destruct (get x root) as [[w [c]]|] eqn:Eg.
+  - destruct (J3 x w (Node c) Eg) as [_ Vc]. cbn [kids] in Vc. rewrite <- Vc. apply vlookup_labs.
+    pose proof (wf_get x root w (Node c) W Eg) as Wc. rewrite wf_t_node in Wc. exact Wc.
+  - cbn [vlookup]. destruct (x <? y); [|reflexivity]. destruct (elookup x y E) eqn:Ee; [|reflexivity].
+    exfalso. apply (HV x y v Ee). rewrite <- J2, Eg. reflexivity.
+Qed.
+Lemma edges_ok_elookup G : forall es x y w, edges_ok G es -> elookup x y es = Some w -> vval G x <> None /\ vval G y <> None.
+Proof.
+  induction es as [|[[a b] o] es IH]; intros x y w F H; [discriminate|].
+  inversion F as [|? ? Hh F']; subst. cbn beta iota in Hh. destruct Hh as (H1 & H2 & H3). cbn [elookup] in H.
+  destruct (Z.eqb_spec a x), (Z.eqb_spec b y), (Z.eqb_spec a y), (Z.eqb_spec b x); cbn [andb orb] in H; subst;
+    try (split; assumption); eapply IH; eauto.
+Qed.
+
+Fixpoint padj (G : graph) (s : simplex) : bool :=
+  match s with [] => true | a :: r => forallb (adj G a) r && padj G r end.
+Section bridge.
+  Variable G : graph.
+  Variable nb : Z -> lv.
+  Hypothesis HB : forall x y, vlookup y (nb x) = if x <? y then eval G x y else None.
+  Hypothesis HV : forall x y w, eval G x y = Some w -> vval G x <> None /\ vval G y <> None.
+
+  Lemma inl_nb x : forall s, inl (nb x) s = lbound x s && forallb (adj G x) s.
+  Proof.
+    induction s as [|y t IH]; [reflexivity|]. rewrite inl_cons, IH, HB. cbn [lbound forallb]. unfold adj.
+    destruct (x <? y), (eval G x y), (lbound x t), (forallb _ t); reflexivity.
+  Qed.
+  Lemma adjs_padj : forall s, ssortedb s = true -> adjs nb s = padj G s.
+  Proof.
+    induction s as [|a r IH]; intro H; [reflexivity|]. cbn [ssortedb] in H. apply andb_prop in H as [H1 H2].
+    rewrite adjs_cons, inl_nb, H1, IH by exact H2. reflexivity.
+  Qed.
+  Lemma cliqueb_padj : forall s, cliqueb G s = forallb (fun y => is_some (vval G y)) s && padj G s.
+  Proof.
+    induction s as [|a r IH]; [reflexivity|]. cbn [cliqueb forallb padj]. rewrite IH.
+    destruct (is_some (vval G a)), (forallb (adj G a) r), (forallb _ r), (padj G r); reflexivity.
+  Qed.
+  Lemma adj_vertices x : forall s, forallb (adj G x) s = true -> forallb (fun y => is_some (vval G y)) s = true.
+  Proof.
+    induction s as [|y t IH]; intro H; [reflexivity|]. cbn [forallb] in *. apply andb_prop in H as [H1 H2].
+    rewrite IH by exact H2. unfold adj in H1. destruct (eval G x y) eqn:E; [|discriminate].
+    destruct (HV x y v E) as [_ Hy]. destruct (vval G y); [reflexivity | congruence].
+  Qed.
+  Lemma mval_ext2s vw e1 e2 : forall s, ssortedb s = true ->
+    (forall a b, In a s -> In b s -> a < b -> e1 a b = e2 a b) -> mval vw e1 s = mval vw e2 s.
+  Proof.
+    induction s as [|a [|b t] IH]; intros Hs H; [reflexivity | reflexivity |].
+    cbn [ssortedb] in Hs. apply andb_prop in Hs as [H1 H2].
+    rewrite !mval_cons2. rewrite IH; [| exact H2 | intros; apply H; cbn; auto].
+    f_equal. apply fmx_ext. intros u Hu. apply H; [cbn; auto | right; exact Hu | eapply lbound_in; eauto].
+  Qed.
+  Lemma values_bridge x s : lbound x s = true -> ssortedb s = true ->
+    mval (vwf (nb x)) (nbw nb) s = mval (ew G x) (ew G) s.
+  Proof.
+    intros Hb Hs. transitivity (mval (ew G x) (nbw nb) s).
+    - apply mval_ext. intros y Hy. unfold vwf, ew. rewrite HB.
+      pose proof (lbound_in x s y Hb Hy). assert (x <? y = true) as -> by lia. reflexivity.
+    - apply mval_ext2s; [exact Hs|]. intros a b _ _ Hab. unfold nbw, vwf, ew. rewrite HB.
+      assert (a <? b = true) as -> by lia. reflexivity.
+  Qed.
+End bridge.
+
+Theorem rspec_flag G root d :
+  (forall x, option_map fst (get x root) = vval G x) ->
+  (forall x y, vlookup y (nbrs root x) = if x <? y then eval G x y else None) ->
+  (forall x y w, eval G x y = Some w -> vval G x <> None /\ vval G y <> None) ->
+  1 <= d -> forall s, rspec root d s = flag G d s.
+Proof.
+  intros HA HB HV Hd [|x [|y t]]; [reflexivity | |].
+  - cbn [rspec]. rewrite HA. unfold flag. cbn [ssortedb lbound is_nil negb cliqueb forallb fval andb].
+    unfold lenZ. cbn [length]. destruct (vval G x); cbn [is_some option_map fst andb]; [|reflexivity].
+    destruct (Z.leb_spec (Z.of_nat 1) (d + 1)); [reflexivity | lia].
+  - cbn [rspec]. set (s' := y :: t). unfold flag.
+    change (ssortedb (x :: s')) with (lbound x s' && ssortedb s').
+    change (is_nil (x :: s')) with false.
+    change (cliqueb G (x :: s')) with (is_some (vval G x) && forallb (adj G x) s' && cliqueb G s').
+    change (fval G (x :: s')) with (mval (ew G x) (ew G) s').
+    destruct (get x root) as [e|] eqn:Eg.
+    + assert (is_some (vval G x) = true) as -> by (rewrite <- HA, Eg; reflexivity).
+      unfold fspec. change (is_nil s') with false. cbn [negb andb]. rewrite !andb_true_r.
+      assert ((length s' <=? S (Z.to_nat (d - 1)))%nat = (lenZ (x :: s') <=? d + 1)) as ->.
+      { unfold lenZ. cbn [length]. destruct (Nat.leb_spec (length s') (S (Z.to_nat (d - 1)))), (Z.leb_spec (Z.of_nat (S (length s'))) (d + 1));
+          try reflexivity; exfalso; lia. }
+      destruct (ssortedb s') eqn:Es; [|cbn [andb]; rewrite !andb_false_r; reflexivity].
+      rewrite (adjs_padj G (nbrs root) HB s' Es), (inl_nb G (nbrs root) HB x s'), (cliqueb_padj G s').
+      destruct (lbound x s') eqn:Hb; [|reflexivity]. cbn [andb].
+      destruct (forallb (adj G x) s') eqn:Hfa; [|reflexivity].
+      rewrite (adj_vertices G HV x s' Hfa). cbn [andb].
+      destruct (padj G s'); [|reflexivity]. cbn [andb].
+      destruct (lenZ (x :: s') <=? d + 1); [|reflexivity]. f_equal.
+      apply values_bridge; auto.
+    + assert (is_some (vval G x) = false) as -> by (rewrite <- HA, Eg; reflexivity).
+      cbn [andb]. rewrite !andb_false_r. reflexivity.
+Qed.
+
+(* ------------------------------------------------------------------------------------------------ main theorems *)
+Lemma graph_ok_eval G : graph_okb G = true -> forall x y w, eval G x y = Some w -> vval G x <> None /\ vval G y <> None.
+Proof. intros Hok x y w. apply edges_ok_elookup, graph_ok_edges, Hok. Qed.
+
+Theorem expansion_flag G st d : graph_okb G = true -> ins_graph G = Some st -> 2 <= d ->
+  wf (tree (expansion st d)) /\
+  (forall s, lookup (abs (tree (expansion st d))) s = flag G d s) /\
+  dimn (expansion st d) = height_t (Node (tree (expansion st d))).
+Proof.
+  intros Hok Hi Hd. pose proof (ins_graph_inv G st Hok Hi) as J.
+  pose proof (Jinv_groot _ _ _ J) as Gr. pose proof (graph_ok_eval G Hok) as HV.
+  assert (forall x y, vlookup y (nbrs (tree st) x) = if x <? y then eval G x y else None) as HB.
+  { apply (Jinv_nbrs G (gedges G) (tree st) J). intros x y w H. apply (HV x y w H). }
+  destruct J as (W & J2 & J3). destruct st as [root dm]. cbn [tree] in *.
+  destruct (expansion_tree_spec root dm d Gr Hd) as [W' F']. split; [exact W' | split].
+  - intro s. rewrite find_abs by exact W'. rewrite F'. apply rspec_flag; auto. lia.
+  - destruct root as [|e r] eqn:Er.
+    + unfold expansion. cbn [tree is_nil]. destruct (d <=? 1); cbn [dimn tree height_t fold_right];
+        unfold ins_graph in Hi; destruct (gverts G) as [|p vs] eqn:Ev;
+        try (inversion Hi; reflexivity);
+        exfalso; specialize (J2 (fst p)); cbn in J2; unfold vval in J2; rewrite Ev in J2; destruct p; cbn in J2;
+        rewrite Z.eqb_refl in J2; discriminate.
+    + rewrite <- Er. apply expansion_dimension; [exact Hd | rewrite Er; discriminate].
+Qed.
+
+(* the value is also the largest among vertices AND edges when no edge is below its end points *)
+Lemma fmx_le_iff g a r m : fmx g a r <= m <-> a <= m /\ forall y, In y r -> g y <= m.
+Proof.
+  induction r as [|y r IH]; cbn [fmx fold_right In].
+  - split; [intro; split; [lia | tauto] | tauto].
+  - fold (fmx g a r). split.
+    + intro H. assert (fmx g a r <= m) as H' by lia. apply IH in H' as [H1 H2]. split; [exact H1|].
+      intros z [->|Hz]; [lia | auto].
+    + intros [H1 H2]. assert (fmx g a r <= m) by (apply IH; split; auto). specialize (H2 y (or_introl eq_refl)). lia.
+Qed.
